@@ -32,7 +32,7 @@ REQUIRED_COUNTERS = {"quick": {"calls:dag_avg_deg": 40000, "calls:dag_full": 800
                      "thorough": {"calls:dag_avg_deg": 400000, "calls:dag_full": 80000, "freq:occupancy-asserted": 20, "freq:edge-law-asserted": 40,
                                   "freq:pairs-asserted": 20, "corner:p0": 1, "corner:p1": 1}}
 NSEEDS = {"quick": 1500, "thorough": 60000}
-WRANGES = [(1, 1), (0.5, 2), (-2, -0.5), (-1, 1), (3, 3)]
+WRANGES = [(1, 1), (0.5, 2), (-2, -0.5), (-1, 1), (3, 3), (1e-12, 2e-12), (-3e-10, -1e-10), (1e9, 2e9)]
 
 
 def cells(tier):
@@ -111,11 +111,34 @@ def judge(family, case, rec):
     counts = []
     done = 0
     zero_in_range = wr[0] <= 0 <= wr[1]
+    held = []          # (seed, W object, ordering object, copies) of earlier calls: they belong to the caller
     for rs in seeds:
         r = _check_call(rec, family, case, gname, fn, p, k, wr, rs)
         if r is None:
             continue
         out, order = r
+        if done < 40 or done % 50 == 0:
+            try:
+                Wk, ok_ = fn(*((p, k) if gname == "dag_avg_deg" else (p,)), w_min=wr[0], w_max=wr[1], return_ordering=True, random_state=rs)
+                held.append((rs, Wk, ok_, Wk.copy(), np.array(ok_, copy=True)))
+            except Exception:
+                pass
+            if len(held) >= 3:
+                rs0, W0, o0, Wc, oc = held.pop(0)
+                rec.count("earlier-results-rechecked")
+                if not (np.array_equal(W0, Wc) and np.array_equal(o0, oc)):
+                    rec.violation("C11:%s-earlier-result-changed-by-later-call" % gname, family, case,
+                                  "the matrix / ordering returned for random_state=%r changed after later calls (p=%d)" % (rs0, p))
+                # the caller overwrites what he was given; the same seeded call must still return the same graph
+                W0[...] = 123.0
+                o0[...] = 0
+                try:
+                    W1, o1 = fn(*((p, k) if gname == "dag_avg_deg" else (p,)), w_min=wr[0], w_max=wr[1], return_ordering=True, random_state=rs0)
+                    if not (np.array_equal(W1, Wc) and np.array_equal(o1, oc)):
+                        rec.violation("C11:%s-result-depends-on-overwritten-earlier-result" % gname, family, case,
+                                      "after the caller overwrote an earlier result, the same seeded call (random_state=%r) returns something else" % (rs0,))
+                except Exception as e:
+                    rec.exception_violation("C11:%s-exception" % gname, family, case, "repeated seeded call raised", e)
         done += 1
         for pos, node in enumerate(order):
             occ[node, pos] += 1
